@@ -107,8 +107,6 @@ def namesO : Option Expr → List String
   | none => []
   | some e => namesE e
 
-def aliasNames (a : Alias) : List String := match a.asname with | some c => [c] | none => []
-
 mutual
 /-- every name that occurs in a statement (in the positions `renStmt` renames) -/
 def namesS : Stmt → List String
@@ -121,8 +119,8 @@ def namesS : Stmt → List String
   | .raise_ e c => namesO e ++ namesO c
   | .try_ _ body hs orelse fin => namesL body ++ namesH hs ++ namesL orelse ++ namesL fin
   | .assert_ c msg => namesE c ++ namesO msg
-  | .import_ names => names.flatMap aliasNames
-  | .importFrom _ names _ => names.flatMap aliasNames
+  | .import_ names => names.map aliasBound
+  | .importFrom _ names _ => names.map fromBound
   | .global ns => ns
   | .expr v => namesE v
   | _ => []
@@ -163,19 +161,27 @@ end
 def fnNames (ps : List String) (body : List Stmt) : List String :=
   reserved ++ ps ++ namesL body ++ (match bindTop body with | some b => b | none => [])
 
+/-- is `x` local to a function with these parameters, bound names and `global` declarations -/
+def isLoc (ps bound dg : List String) (x : String) : Bool := !dg.contains x && (ps ++ canonNames bound).contains x
+
 /-- the condition on one function: `π` is injective on the names of the function, moves only its local names, never onto
-    a parameter that keeps its own binding, the copied parameters are exactly the renamed ones -/
+    a parameter that keeps its own binding; the copied parameters are exactly the renamed ones; the renamed body has the
+    renamed local names (so the static local / global decision agrees on every name of the function) -/
 def fnOK (π : Ren) (pro : List String) (ps : List String) (body : List Stmt) : Bool :=
   let N := fnNames ps body
-  let dg := declaredGlobals body
+  let body' := renFnBody π pro body
   let bound := match bindTop body with | some b => b | none => []
-  let isLoc := fun x => !dg.contains x && (ps.contains x || bound.contains x)
+  let bound' := match bindTop body' with | some b => b | none => []
+  let loc := isLoc ps bound (declaredGlobals body)
+  let loc' := isLoc ps bound' (declaredGlobals body')
   N.all (fun x => N.all (fun y => π x != π y || x == y)) &&
-  N.all (fun x => isLoc x || π x == x) &&
+  N.all (fun x => loc x || π x == x) &&
+  N.all (fun x => loc' (π x) == loc x) &&
   reserved.all (fun x => π x == x) &&
   ps.all (fun p => pro.contains p == (π p != p)) &&
-  pro.all (fun p => ps.contains p && N.all (fun x => π x != p)) &&
+  pro.all (fun p => ps.contains p && loc' p && N.all (fun x => π x != p)) &&
   pro.Nodup &&
+  ((bindTop body').isSome == (bindTop body).isSome) &&
   fixedL π body
 
 /-- … on every function of the module -/
